@@ -110,12 +110,20 @@ func gopfmt(path string, class, smart, mvgo bool) (err error) {
 
 func writeFileWithBackup(path string, target []byte) (err error) {
 	dir, file := filepath.Split(path)
+	fi, err := os.Stat(path)
+	if err != nil {
+		return
+	}
 	f, err := os.CreateTemp(dir, file)
 	if err != nil {
 		return
 	}
 	tmpfile := f.Name()
 	_, err = f.Write(target)
+	if err == nil {
+		// CreateTemp creates the file with mode 0600: keep the original permission bits
+		err = f.Chmod(fi.Mode().Perm())
+	}
 	f.Close()
 	if err != nil {
 		os.Remove(tmpfile)
